@@ -499,6 +499,26 @@ func c16linecol(c *core.Ctx) {
 	if n == 0 {
 		c.Note(R, "SetFile:none", "", "no SetFile call in the module", "")
 	}
+	// (7) SetFile itself recounts a positioned error
+	if sd := c.P.FindDecl("(*kit.JSchemaError).SetFile"); sd == nil {
+		c.Unresolved(R, "(*kit.JSchemaError).SetFile")
+	} else {
+		stored, ok := false, false
+		ast.Inspect(sd.Decl.Body, func(n ast.Node) bool {
+			switch x := n.(type) {
+			case *ast.AssignStmt:
+				if len(x.Lhs) == 1 && core.ExprStr(x.Lhs[0]) == "e.file" {
+					stored = true
+				}
+			case *ast.CallExpr:
+				if core.FullName(core.Callee(sd.Pkg, x)) == "(*kit.JSchemaError).countLineAndColumn" && stored {
+					ok = true
+				}
+			}
+			return true
+		})
+		c.Check(ok, R, "(*kit.JSchemaError).SetFile:recount", c.P.Pos(sd.Decl.Pos()), "SetFile stores the file, then recounts line and column", "after SetFile line and column still describe the position in the previous text")
+	}
 }
 
 // c16newline: the newline symbol of a text is decided by its first line break, wherever that is.
